@@ -676,7 +676,7 @@ struct Mon {
 		else if (expect_unchanged) { std::string what; if (!obs_equal(x.before, x.after, what)) viol(k == OP_SAVE ? "C12" : k == OP_QUERY ? "C05" : k == OP_REPLAY_TRANSITION ? "C11" : "C02", k == OP_SAVE ? "save-does-not-modify" : k == OP_QUERY ? "query-leaves-machine-unchanged" : k == OP_REPLAY_TRANSITION ? "replay-invalid-changes-nothing" : "request-does-not-change-state", std::string(OP_NAMES[k]) + " changed the machine's " + what); }
 		check_after(x.after);
 		if (k == OP_LOAD && x.after.valid) {
-			if (x.after.has_serial && x.snapshot_index >= 0) { /* canonical: a loaded machine serializes to the loaded bytes */ }
+			if (x.after.has_serial && !x.loaded_bytes.empty() && x.after.serial != x.loaded_bytes) viol("C12", "canonical", "a machine that just loaded a snapshot serializes to different bytes than the snapshot");
 			const bool act = x.after.active_id != SUT_INVALID;
 			if (act != x.saved_active || (act && x.after.active_id != x.saved_state)) viol("C12", "round-trip", "after load() the machine is " + (act ? "in state " + S(x.after.active_id) : std::string("inactive")) + " but the snapshot was taken " + (x.saved_active ? "in state " + S(x.saved_state) : std::string("inactive")));
 		}
@@ -764,6 +764,15 @@ uint64_t hash_op(const OpExec& x, bool neutral) {
 		h = fnv8(h, static_cast<uint64_t>(x.after.active_id)); h = fnv(h, x.after.active, nb);
 		if (!neutral) { h = hash_plan(h, x.after.plan); if (x.after.has_prev) h = hash_trans(h, x.after.prev); if (x.after.has_serial) h = fnv(h, &x.after.serial[0], x.after.serial.size()); }
 	} else h = fnv8(h, 0xdead);
+	return h;
+}
+
+uint64_t obs_hash(const Obs& o) {
+	uint64_t h = 0xcbf29ce484222325ULL;
+	if (!o.valid) return h;
+	h = fnv8(h, static_cast<uint64_t>(o.active_id)); h = fnv(h, o.active, 32); h = fnv8(h, static_cast<uint64_t>(o.manual_active));
+	h = hash_plan(h, o.plan); if (o.has_prev) h = hash_trans(h, o.prev); if (o.has_serial) h = fnv(h, &o.serial[0], o.serial.size());
+	h = fnv8(h, o.ctx_tag);
 	return h;
 }
 
